@@ -156,8 +156,14 @@ def run_impl(opfile, variant="rel", timeout=600, cwd=None, env=None):
     e["OMP_NUM_THREADS"] = e.get("OMP_NUM_THREADS", "1")
     if env:
         e.update(env)
-    p = subprocess.run([exe, opfile], stdout=subprocess.PIPE, stderr=subprocess.PIPE, text=True,
-                       timeout=timeout, cwd=cwd, env=e, errors="replace")
+    try:
+        p = subprocess.run([exe, opfile], stdout=subprocess.PIPE, stderr=subprocess.PIPE, text=True,
+                           timeout=timeout, cwd=cwd, env=e, errors="replace")
+    except subprocess.TimeoutExpired as ex:
+        # a hang: what was printed before it tells which operation never returned
+        def txt(b):
+            return b if isinstance(b, str) else (b or b"").decode("utf-8", "replace")
+        return "timeout", txt(ex.stdout), txt(ex.stderr)[-2000:]
     return p.returncode, p.stdout, p.stderr
 
 
